@@ -122,7 +122,8 @@ func NewEngine(c *rt.C, o EngOpt) *Engine {
 	e.db = OpenDB(DBOpt{Mem: o.Mem, KV: o.KV, Delta: o.Delta})
 	if o.Perturb > 0 {
 		y := yielder(e.seed, o.Perturb)
-		hook := func(id int, arg unsafe.Pointer) { y() }
+		pt := perturber(e.seed, o.Perturb)
+		hook := func(id int, arg unsafe.Pointer) { pt(id) }
 		skiplist.VerifSetHook(hook)
 		nitro.VerifSetHook(hook)
 		if e.db.A != nil {
